@@ -278,58 +278,48 @@ Proof.
 Qed.
 
 (* ---- SAMI sync rule ------------------------------------------------------------------------ *)
-(* statement-level reading, as a function: a sync at each cue's start ms; a blank sync at the end
-   ms unless the next cue of the language starts at that ms; nothing after the last cue *)
-Fixpoint sami_spec (caps : list (Q * Q)) (i : nat) : list sev :=
-  match caps with
-  | [] => []
-  | (s, e) :: t =>
-      SCue (floor_ms s) i
-      :: (match t with
-          | (s', _) :: _ => if floor_ms s' =? floor_ms e then [] else [SBlank (floor_ms e)]
-          | [] => []
-          end) ++ sami_spec t (S i)
-  end.
+Definition sev_obs (e : sev) : Z * bool :=
+  match e with SCue ms _ => (ms, false) | SBlank ms => (ms, true) end.
 
 Lemma sami_events_lead : forall caps l i,
-  sami_events caps (Some l) i =
+  map sev_obs (sami_events caps (Some l) i) =
   (match caps with
-   | (s, _) :: _ => if floor_ms s =? l then [] else [SBlank l]
+   | (s, _) :: _ => if floor_ms s =? l then [] else [(l, true)]
    | [] => []
-   end) ++ sami_events caps None i.
+   end) ++ map sev_obs (sami_events caps None i).
 Proof.
   intros [|[s e] t] l i; [reflexivity|].
   cbn [sami_events]. unfold sami_ms. fold (floor_ms s).
   destruct (floor_ms s =? l); reflexivity.
 Qed.
 
-Lemma sami_sync_rule : forall caps, sami_write caps = sami_spec caps 0.
+(* the writer model's syncs of a language ARE the rule of the statement, for every caption list *)
+Lemma sami_sync_rule : forall caps, map sev_obs (sami_write caps) = sami_rule caps.
 Proof.
   intros caps. unfold sami_write. generalize 0%nat.
   induction caps as [|[s e] t IH]; intros i; [reflexivity|].
-  cbn [sami_events sami_spec app]. unfold sami_ms at 1. fold (floor_ms s). f_equal.
+  cbn [sami_events sami_rule app map sev_obs]. unfold sami_ms at 1. fold (floor_ms s). f_equal.
   rewrite sami_events_lead. unfold sami_ms. fold (floor_ms e). rewrite IH.
   destruct t as [|[s' e'] t']; reflexivity.
 Qed.
 
-Definition sev_obs (e : sev) : Z * bool :=
-  match e with SCue ms _ => (ms, false) | SBlank ms => (ms, true) end.
-
 (* what the model writes satisfies the oracle, for every caption list *)
-Lemma sami_write_ok : forall caps, ok_sami_ms caps (map sev_obs (sami_write caps)) = true.
+Lemma sami_rule_ok : forall caps, ok_sami_ms caps (sami_rule caps) = true.
 Proof.
-  intros caps. rewrite sami_sync_rule. generalize 0%nat.
-  induction caps as [|[s e] t IH]; intros i; [reflexivity|].
-  cbn [sami_spec map sev_obs ok_sami_ms]. rewrite acc_ms_floor. cbn [andb].
+  induction caps as [|[s e] t IH]; [reflexivity|].
+  cbn [sami_rule ok_sami_ms]. rewrite acc_ms_floor. cbn [andb].
   destruct t as [|[s' e'] t']; [reflexivity|].
-  specialize (IH (S i)). cbn [sami_spec map sev_obs] in IH.
+  cbn [sami_rule] in IH.
   destruct (floor_ms s' =? floor_ms e) eqn:E.
-  - cbn [app map sev_obs sami_spec].
+  - cbn [app sami_rule].
     assert (A : acc_ms e (floor_ms s') = true).
     { apply Z.eqb_eq in E. rewrite E. apply acc_ms_floor. }
     rewrite A. cbn [andb]. exact IH.
-  - cbn [app map sev_obs sami_spec]. rewrite acc_ms_floor, E. cbn [andb negb]. exact IH.
+  - cbn [app sami_rule]. rewrite acc_ms_floor, E. cbn [andb negb]. exact IH.
 Qed.
+
+Lemma sami_write_ok : forall caps, ok_sami_ms caps (map sev_obs (sami_write caps)) = true.
+Proof. intros. rewrite sami_sync_rule. apply sami_rule_ok. Qed.
 
 (* ---- SRT: one cue per maximal run of equal (start, end) ------------------------------------- *)
 Lemma srt_fold_tail : forall t a b, a <> [] ->
@@ -445,40 +435,182 @@ Lemma sami_blank_after_ms0_refuted :
   exists caps, ok_sami_ms caps (map sev_obs (sami_events_unfixed caps None 0)) = false.
 Proof. exists [(inject_Z 0, inject_Z 900); (inject_Z 5000000, inject_Z 6000000)]. vm_compute. reflexivity. Qed.
 
-(* ---- cue structure: one cue per caption (DFXP, MicroDVD), one per layout group (WebVTT) ------------ *)
+(* ---- cue structure: the writer models satisfy the document oracle ok_cues ------------------------------ *)
 Lemma time_ok_parts : forall t, time_ok t = true -> (0 <= t)%Q /\ 0 <= rhe t < 86400000000.
 Proof.
-  intros t H. unfold time_ok in H. apply andb_true_iff in H. destruct H as [H H3].
-  apply andb_true_iff in H. destruct H as [H1 H2]. split; [apply Qle_bool_iff; exact H1|lia].
+  intros t H. unfold time_ok in H. apply andb_true_iff in H. destruct H as [H1 H2].
+  apply Qle_bool_iff in H1.
+  assert (H3 : (t < 172799999999 # 2)%Q).
+  { destruct (Qle_bool (172799999999 # 2) t) eqn:E; [discriminate H2|].
+    apply Qnot_le_lt. intros C. apply Qle_bool_iff in C. congruence. }
+  split; [exact H1|].
+  pose proof (floor_nonneg t H1) as F0.
+  assert (FL : Qfloor t <= 86399999999).
+  { destruct (Z_le_gt_dec (Qfloor t) 86399999999) as [L|G]; [exact L|exfalso].
+    assert (C : (inject_Z 86400000000 <= t)%Q).
+    { apply Qle_trans with (inject_Z (Qfloor t)); [rewrite <- Zle_Qle; lia|apply Qfloor_le]. }
+    apply (Qlt_irrefl t). apply Qlt_le_trans with (172799999999 # 2); [exact H3|].
+    apply Qle_trans with (inject_Z 86400000000); [|exact C]. unfold Qle, inject_Z. cbn. lia. }
+  destruct (rhe_cases t) as [E|[E U]]; [lia|].
+  split; [lia|].
+  destruct (Z.eq_dec (Qfloor t) 86399999999) as [Eq|Ne]; [|lia]. exfalso.
+  (* the fraction is >= 1/2, so t >= 86399999999.5 *)
+  unfold up_ok in U. apply Qle_bool_iff in U. rewrite Eq in U.
+  apply (Qlt_irrefl t). apply Qlt_le_trans with (172799999999 # 2); [exact H3|].
+  clear -U. destruct t as [n d]. unfold Qle, Qminus, Qplus, Qopp, inject_Z in U |- *. cbn [Qnum Qden] in U |- *.
+  rewrite ?Pos2Z.inj_mul in U. lia.
 Qed.
 
-Lemma dfxp_one_p_per_caption : forall caps, caps_time_ok caps = true ->
-  length (dfxp_tokens caps) = length caps /\
-  ok_cues WDfxp caps [] (dfxp_tokens caps) = true.
+(* the accepted values of a time do not depend on how the rational is written *)
+Lemma Qle_bool_comp_r : forall a b b', (b == b')%Q -> Qle_bool a b = Qle_bool a b'.
 Proof.
-  intros caps H. split; [apply map_length|].
-  unfold ok_cues, expected_spans, dfxp_tokens. induction caps as [|c t IH]; [reflexivity|].
+  intros a b b' H. destruct (Qle_bool a b) eqn:E1, (Qle_bool a b') eqn:E2; try reflexivity.
+  - apply Qle_bool_iff in E1. rewrite H in E1. apply Qle_bool_iff in E1. congruence.
+  - apply Qle_bool_iff in E2. rewrite <- H in E2. apply Qle_bool_iff in E2. congruence.
+Qed.
+
+Lemma acc_ms_comp : forall t t' v, (t == t')%Q -> acc_ms t v = acc_ms t' v.
+Proof.
+  intros t t' v H. unfold acc_ms, floor_ms, up_ok.
+  assert (F : Qfloor t = Qfloor t') by (apply Qfloor_comp; exact H).
+  assert (G : Qfloor (t / 1000) = Qfloor (t' / 1000)) by (apply Qfloor_comp; rewrite H; reflexivity).
+  rewrite F, G. f_equal. f_equal. apply Qle_bool_comp_r. rewrite H. reflexivity.
+Qed.
+
+Lemma ok_hms_comp : forall sep t t' tok, (t == t')%Q -> ok_hms sep t tok = ok_hms sep t' tok.
+Proof. intros. unfold ok_hms. destruct (parse_hms sep tok); [apply acc_ms_comp; assumption|reflexivity]. Qed.
+
+Lemma span_eqb_Qeq : forall a b, span_eqb a b = true -> (c_start a == c_start b)%Q /\ (c_end a == c_end b)%Q.
+Proof.
+  intros a b H. unfold span_eqb in H. apply andb_true_iff in H. destruct H as [H1 H2].
+  split; apply Qeq_bool_iff; assumption.
+Qed.
+
+(* a cue printed from caption c' conveys every caption c with the same span *)
+Lemma hms_cue_conveys : forall k sep (c c' : caption),
+  (k = WSrt /\ sep = 44 \/ k = WMerged /\ sep = 46) ->
+  span_eqb c' c = true -> time_ok (c_start c') = true -> time_ok (c_end c') = true ->
+  tok_ok k c (format_ts sep (c_start c'), format_ts sep (c_end c')) = true.
+Proof.
+  intros k sep c c' Hk Hs T1 T2. destruct (span_eqb_Qeq _ _ Hs) as [Q1 Q2].
+  destruct (time_ok_parts _ T1) as [_ B1]. destruct (time_ok_parts _ T2) as [_ B2].
+  unfold tok_ok. cbn [fst snd].
+  destruct Hk as [[-> ->]|[-> ->]]; cbn [ok_token];
+    rewrite <- (ok_hms_comp _ _ _ _ Q1), <- (ok_hms_comp _ _ _ _ Q2), !fmt_hms_ok by assumption; reflexivity.
+Qed.
+
+(* cues that stand for the runs of a caption list, each conveying the first caption of its run, are accepted
+   by the "may merge" oracle whatever cue came before *)
+Lemma may_merge_runs : forall k (g : caption * list caption -> str * str) rs pending,
+  (forall r, In r rs -> tok_ok k (fst r) (g r) = true /\ forall x, In x (snd r) -> span_eqb (fst r) x = true) ->
+  ok_may_merge k pending (concat (map (fun r => fst r :: snd r) rs)) (map g rs) = true.
+Proof.
+  intros k g. induction rs as [|[c cs] rs IH]; intros pending H; [reflexivity|].
+  destruct (H (c, cs) (or_introl eq_refl)) as [Hc Hcs]. cbn [fst snd] in Hc, Hcs.
+  cbn [map concat fst snd app ok_may_merge]. rewrite Hc. cbn [andb].
+  assert (A : ok_may_merge k (Some c) (cs ++ concat (map (fun r => fst r :: snd r) rs)) (map g rs) = true).
+  { assert (Hrs : forall r, In r rs -> tok_ok k (fst r) (g r) = true /\ forall x, In x (snd r) -> span_eqb (fst r) x = true)
+      by (intros r Hr; apply H; right; exact Hr).
+    clear Hc H. induction cs as [|x cs IHc].
+    - cbn [app]. apply IH. exact Hrs.
+    - cbn [app ok_may_merge]. rewrite (Hcs x (or_introl eq_refl)). cbn [andb].
+      rewrite IHc by (intros y Hy; apply Hcs; right; exact Hy). reflexivity. }
+  rewrite A. apply orb_true_r.
+Qed.
+
+Definition hms_tok (sep : Z) (c : caption) : str * str := (format_ts sep (c_start c), format_ts sep (c_end c)).
+
+Lemma caps_time_ok_in : forall caps c, caps_time_ok caps = true -> In c caps ->
+  time_ok (c_start c) = true /\ time_ok (c_end c) = true.
+Proof.
+  intros caps c H Hin. unfold caps_time_ok in H. rewrite forallb_forall in H. specialize (H c Hin).
+  apply andb_true_iff in H. exact H.
+Qed.
+
+Lemma run_last_in : forall caps r, In r (runs caps) -> In (run_last r) caps.
+Proof.
+  intros caps [c cs] Hr. rewrite <- (runs_partition caps). apply in_concat.
+  exists (c :: cs). split; [apply in_map_iff; exists (c, cs); split; [reflexivity|exact Hr]|].
+  unfold run_last. cbn [fst snd]. destruct cs as [|x xs]; [left; reflexivity|].
+  destruct (@exists_last _ (x :: xs) ltac:(discriminate)) as [l' [a E]]. rewrite E, last_last.
+  right. apply in_or_app. right. left. reflexivity.
+Qed.
+
+(* SRT: the cues of the writer model (merge loop, then the [:12] stamps) satisfy the oracle *)
+Lemma srt_model_meets_oracle : forall caps, caps_time_ok caps = true ->
+  ok_cues WSrt caps (map (fun c => (srt_ts (c_start c), srt_ts (c_end c))) (srt_merge caps)) = true.
+Proof.
+  intros caps H. unfold ok_cues.
+  (* the tokens depend on the spans only, and the spans are those of the last member of every run *)
+  assert (E : map (fun c => (srt_ts (c_start c), srt_ts (c_end c))) (srt_merge caps)
+              = map (fun r => hms_tok 44 (run_last r)) (runs caps)).
+  { transitivity (map (fun sp : Q * Q => (srt_ts (fst sp), srt_ts (snd sp))) (map span (srt_merge caps))).
+    - rewrite map_map. reflexivity.
+    - rewrite srt_cues_are_runs. rewrite map_map. apply map_ext_in. intros r Hr. unfold hms_tok, span. cbn [fst snd].
+      destruct (caps_time_ok_in caps _ H (run_last_in caps r Hr)) as [T1 T2].
+      destruct (time_ok_parts _ T1) as [_ B1]. destruct (time_ok_parts _ T2) as [_ B2].
+      rewrite !srt_ts_full by assumption. reflexivity. }
+  rewrite E. rewrite <- (runs_partition caps) at 1.
+  apply may_merge_runs. intros r Hr. split.
+  - destruct (caps_time_ok_in caps _ H (run_last_in caps r Hr)) as [T1 T2].
+    apply (hms_cue_conveys WSrt 44 (fst r) (run_last r)); [left; split; reflexivity|apply (run_last_span caps); exact Hr|exact T1|exact T2].
+  - intros x Hx. rewrite span_sym. apply (runs_members_same caps r x Hr Hx).
+Qed.
+
+(* legacy / single-position DFXP: merge_concurrent_captions, then one <p> per merged caption *)
+Lemma merged_model_meets_oracle : forall caps, caps_time_ok caps = true -> nodes_nonempty caps = true ->
+  exists l, merge_lang caps = Ok l /\ ok_cues WMerged caps (map (hms_tok 46) l) = true.
+Proof.
+  intros caps H Hn. exists (spec_merge_lang caps). split; [apply merge_lang_spec; exact Hn|].
+  unfold ok_cues, spec_merge_lang. rewrite map_map. rewrite <- (runs_partition caps) at 1.
+  apply (may_merge_runs WMerged (fun r => hms_tok 46 (join_run r))). intros [c cs] Hr. cbn [fst snd]. split.
+  - assert (Hin : In c caps) by (apply (runs_heads_in caps (c, cs)); exact Hr).
+    destruct (caps_time_ok_in caps c H Hin) as [T1 T2].
+    unfold hms_tok. cbn [join_run c_start c_end].
+    apply (hms_cue_conveys WMerged 46 c c); [right; split; reflexivity|apply span_refl|exact T1|exact T2].
+  - intros x Hx. rewrite span_sym. apply (runs_members_same caps (c, cs) x Hr Hx).
+Qed.
+
+(* DFXP one <p> per caption, MicroDVD one line per caption *)
+Lemma dfxp_model_meets_oracle : forall caps, caps_time_ok caps = true -> ok_cues WDfxp caps (dfxp_tokens caps) = true.
+Proof.
+  intros caps H. unfold ok_cues, dfxp_tokens. induction caps as [|c t IH]; [reflexivity|].
   cbn [caps_time_ok forallb] in H. apply andb_true_iff in H. destruct H as [Hc Ht].
   apply andb_true_iff in Hc. destruct Hc as [Hs He].
   destruct (time_ok_parts _ Hs) as [_ Bs]. destruct (time_ok_parts _ He) as [_ Be].
-  cbn [map ok_pairs span ok_token]. unfold dfxp_ts.
+  cbn [map ok_each]. unfold tok_ok. cbn [fst snd ok_token]. unfold dfxp_ts.
   rewrite !fmt_hms_ok by assumption. cbn [andb]. apply IH. exact Ht.
 Qed.
 
-Lemma mdvd_one_line_per_caption : forall caps, caps_time_ok caps = true ->
-  length (mdvd_tokens caps) = length caps /\
-  ok_cues WMdvd caps [] (mdvd_tokens caps) = true.
+Lemma mdvd_model_meets_oracle : forall caps, caps_time_ok caps = true -> ok_cues WMdvd caps (mdvd_tokens caps) = true.
 Proof.
-  intros caps H. split; [apply map_length|].
-  unfold ok_cues, expected_spans, mdvd_tokens. induction caps as [|c t IH]; [reflexivity|].
+  intros caps H. unfold ok_cues, mdvd_tokens. induction caps as [|c t IH]; [reflexivity|].
   cbn [caps_time_ok forallb] in H. apply andb_true_iff in H. destruct H as [Hc Ht].
   apply andb_true_iff in Hc. destruct Hc as [Hs He].
   destruct (time_ok_parts _ Hs) as [Ps _]. destruct (time_ok_parts _ He) as [Pe _].
-  cbn [map ok_pairs span ok_token].
+  cbn [map ok_each]. unfold tok_ok. cbn [fst snd ok_token].
   rewrite !mdvd_token_ok by assumption. cbn [andb]. apply IH. exact Ht.
 Qed.
 
-(* the grouping loop: the number of groups is 1 + the number of layout changes between text nodes *)
+(* ---- WebVTT: the grouping loop, characterised (a description of the MODEL, not a demand of the statement) ---- *)
+Definition text_layouts (nodes : list vnode) : list (option Z) :=
+  flat_map (fun n => match n with VText l => [l] | _ => [] end) nodes.
+
+Fixpoint layout_changes (prev : option Z) (ls : list (option Z)) : nat :=
+  match ls with
+  | [] => O
+  | l :: t => (match prev with
+               | Some c => if opt_z_eqb l (Some c) then O else 1%nat
+               | None => O
+               end + layout_changes l t)%nat
+  end.
+
+Definition shows_something (nodes : list vnode) : bool :=
+  existsb (fun n => match n with VText _ => true | VStyle e => e | VBreak => true end) nodes.
+
+Definition spec_groups (nodes : list vnode) : nat :=
+  if shows_something nodes then S (layout_changes None (text_layouts nodes)) else O.
+
 Lemma vtt_group_fold : forall nodes g ne cur, (cur <> None -> ne = true) ->
   exists cur',
     fold_left vtt_group_step nodes (g, ne, cur)
@@ -520,27 +652,27 @@ Proof.
   rewrite (nothing_shown_no_text _ S). reflexivity.
 Qed.
 
-Lemma ok_pairs_app : forall k e1 o1 e2 o2, length e1 = length o1 ->
-  ok_pairs k (e1 ++ e2) (o1 ++ o2) = ok_pairs k e1 o1 && ok_pairs k e2 o2.
+(* WebVTT: a caption that shows something gets one or more cues, all with its times: accepted by "may split" *)
+Lemma may_split_repeat : forall k c (o : str * str) n rest_o rest_c, tok_ok k c o = true ->
+  ok_may_split k rest_o rest_c = true ->
+  ok_may_split k (repeat o (S n) ++ rest_o) (c :: rest_c) = true.
 Proof.
-  intros k. induction e1 as [|[s e] e1 IH]; intros o1 e2 o2 H; destruct o1 as [|[a b] o1]; try discriminate H.
-  - reflexivity.
-  - cbn [app ok_pairs]. rewrite IH by (cbn [length] in H; lia). rewrite !andb_assoc. reflexivity.
+  intros k c o n rest_o rest_c Ho Hr. induction n as [|n IH].
+  - cbn [repeat app ok_may_split]. rewrite Ho, Hr. reflexivity.
+  - change (repeat o (S (S n))) with (o :: repeat o (S n)). cbn [app ok_may_split]. rewrite Ho. cbn [andb].
+    rewrite IH. apply orb_true_r.
 Qed.
 
-(* every cue of a caption carries the caption's times; as many cues as layout groups *)
-Lemma vtt_cues_same_times : forall caps : list (caption * list vnode), caps_time_ok (map fst caps) = true ->
-  ok_cues WVtt (map fst caps) (map (fun cn => spec_groups (snd cn)) caps) (vtt_tokens caps) = true.
+Lemma vtt_model_meets_oracle : forall caps : list (caption * list vnode), caps_time_ok (map fst caps) = true ->
+  forallb (fun cn => shows_something (snd cn)) caps = true ->
+  ok_cues WVtt (map fst caps) (vtt_tokens caps) = true.
 Proof.
-  intros caps H. unfold ok_cues, expected_spans, vtt_tokens.
-  induction caps as [|[c nodes] t IH]; [reflexivity|].
+  intros caps H S. unfold ok_cues, vtt_tokens. induction caps as [|[c nodes] t IH]; [reflexivity|].
   cbn [map fst caps_time_ok forallb] in H. apply andb_true_iff in H. destruct H as [Hc Ht].
   apply andb_true_iff in Hc. destruct Hc as [Hs He].
+  cbn [forallb snd] in S. apply andb_true_iff in S. destruct S as [S1 S2].
   destruct (time_ok_parts _ Hs) as [_ Bs]. destruct (time_ok_parts _ He) as [_ Be].
-  cbn [map fst snd combine concat].
-  rewrite ok_pairs_app by (unfold vtt_cap_tokens; rewrite !repeat_length, vtt_group_count_spec; reflexivity).
-  rewrite (IH Ht). rewrite andb_true_r.
-  unfold vtt_cap_tokens. rewrite vtt_group_count_spec.
-  induction (spec_groups nodes) as [|n IHn]; [reflexivity|].
-  cbn [repeat ok_pairs span ok_token]. rewrite !vtt_ts_ok by assumption. cbn [andb]. exact IHn.
+  cbn [map fst snd concat]. unfold vtt_cap_tokens. rewrite vtt_group_count_spec. unfold spec_groups. rewrite S1.
+  apply may_split_repeat; [|apply IH; assumption].
+  unfold tok_ok. cbn [fst snd ok_token]. rewrite !vtt_ts_ok by assumption. reflexivity.
 Qed.
